@@ -261,11 +261,9 @@ class Harmonic:
         a = np.array([[4.0, 3.0, 1.0], [0.0, 4.0, 2.0], [0.0, 0.0, 6.0]])
         at = Atoms("He", [[0, 0, 0]], ecut=2, a=a)
         scf = SCF(at, pot="harmonic", verbose="critical")
-        V = np.real(scf.atoms.I(scf.Vloc)) if False else None
         from eminus.potentials import harmonic
 
-        Vg = harmonic(scf)
-        Vr = np.real(scf.atoms.I(Vg))
+        Vr = np.real(np.asarray(harmonic(scf)))  # Jdag(O(J(V))): the real-space potential times a positive constant
         r = np.asarray(scf.atoms.r)
         imin = int(np.argmin(Vr))
         centre = a.sum(axis=0) / 2
